@@ -234,6 +234,16 @@ func (m *membership) universalIDByPartyID(id PartyID) UniversalID {
 	return m.pID2UID[id]
 }
 
+// restrictTo returns the membership of a session in which only the given nodes take part,
+// so that a party identifier translates to the node that represents the party in that session.
+func (m *membership) restrictTo(ids []UniversalID) *membership {
+	mapping := make(map[UniversalID]PartyID)
+	for _, id := range ids {
+		mapping[id] = m.uID2PID[id]
+	}
+	return computeMembership(mapping)
+}
+
 func computeMembership(mapping map[UniversalID]PartyID) *membership {
 	protocol2universal := make(map[PartyID]UniversalID)
 	universal2Protocol := make(map[UniversalID]PartyID)
@@ -631,11 +641,13 @@ func (s *Scheme) initializeDKG(dkg KeyGenerator, threshold int, members []Univer
 
 	dkgTopicHash := hash([]byte(DkgTopicName))
 
-	// The MPC backend works with party identifiers
+	// The MPC backend works with party identifiers, and a party is represented
+	// by the node that participates in this session.
 	parties, err := membership.partyIDsByUniversalIDs(members)
 	if err != nil {
 		return err
 	}
+	membership = membership.restrictTo(members)
 
 	dkg.Init(partyIDsToUInts(parties), threshold, func(msg []byte, isBroadcast bool, to uint16) {
 		var payload []byte
@@ -659,6 +671,9 @@ func (s *Scheme) initializeThresholdSigning(membership *membership, parties []Pa
 	}
 
 	membersWithoutMe := excludeUniversal(signers, s.SelfID)
+
+	// A party is represented by the node that participates in this session
+	membership = membership.restrictTo(signers)
 
 	signer.Init(partyIDsToUInts(parties), s.Threshold, func(msg []byte, isBroadcast bool, to uint16) {
 		var payload []byte
